@@ -50,7 +50,7 @@ inductive Ev where
   | wDie (i : Nat) (code : Int)    -- abnormal termination at any point: undelivered messages are lost
   | pGet                           -- queue.get returns the head of the pipe
   | pTimeout                       -- queue.get raises Empty (only when the pipe is empty)
-  | pCheck                         -- one_is_alive / all_exited after Empty
+  | pCheck                         -- one_failed / one_is_alive / all_exited after Empty
 deriving DecidableEq, Repr
 
 def updW (ws : List Worker) (i : Nat) (w : Worker) : List Worker := ws.set i w
@@ -64,6 +64,8 @@ def receive (s : St) (m : Msg) : St :=
 
 def anyRunning (s : St) : Bool := s.ws.any (fun w => w.st == .running)
 def allExitedZero (s : St) : Bool := s.ws.all (fun w => w.st == .exited 0)
+/-- `one_failed`: some process has exited with a non-zero status -/
+def anyFailed (s : St) : Bool := s.ws.any (fun w => match w.st with | .exited c => c != 0 | .running => false)
 
 /-- one event; an event that is not enabled leaves the state unchanged (stutter) -/
 def step (s : St) : Ev → St
@@ -87,8 +89,9 @@ def step (s : St) : Ev → St
       | _, _ => s
   | .pCheck => match s.pc with
       | .afterEmpty =>
-          if anyRunning s then { s with pc := .atGet }           -- continue
-          else if !allExitedZero s then { s with pc := .failed }  -- sys.exit(1)
+          if anyFailed s then { s with pc := .failed }            -- one_failed: stop the others, sys.exit(1) (the fix of K3)
+          else if anyRunning s then { s with pc := .atGet }       -- continue
+          else if !allExitedZero s then { s with pc := .failed }  -- sys.exit(1) (unreachable after the first test)
           else { s with pc := .atGet }                            -- continue (the fix of D17)
       | _ => s
 
